@@ -1,7 +1,7 @@
 """Scan episodes: a project is written to disk and scanned by the real entry points under several configurations.
 
 spec: {"driver":"scan","project":{root,dirs,files,stmts},
-       "items":[{"op":"scan","id":"S0","mpath":[..],"limit":0,"ext":false,"entry":"path"|"module",
+       "items":[{"op":"scan","id":"S0","mpath":[..],"limit":null|k (level_limit k, k >= 0),"ext":false,"entry":"path"|"module",
                  "excl":{"kind":"none"|"glob"|"regex","patterns":[str]},
                  "extexcl":{"kind":"none"|"glob"|"regex","patterns":[str]},"shuffle":int|null},
                 {"op":"seval","scan":"S0","rid":"R1","rule":{..}},
@@ -120,7 +120,7 @@ def run_episode(spec, uid="E"):
                     kw["external_exclusions"] = tuple(extexcl["patterns"])
                 elif extexcl["kind"] == "regex":
                     kw["regex_external_exclusions"] = tuple(extexcl["patterns"])
-                if it.get("limit"):
+                if it.get("limit") is not None:
                     kw["level_limit"] = it["limit"]
                 ex_log, xx_log = option_logs(listed, base, mpath, excl, extexcl, bool(it.get("ext")))
                 out, err, obs = "ok", "", {"modules": [], "imports": []}
@@ -148,7 +148,7 @@ def run_episode(spec, uid="E"):
                     raise
                 except Exception as e:  # noqa: BLE001
                     out, err = "error", f"{type(e).__name__}: {e}"[:300]
-                events.append({"k": "scan", "id": it["id"], "mpath": mpath, "limit": it.get("limit") or 0,
+                events.append({"k": "scan", "id": it["id"], "mpath": mpath, "limit": 0 if it.get("limit") is None else it["limit"] + 1,     # Scan.tla: 0 = none, k + 1 = level_limit k
                                "ext": bool(it.get("ext")), "entry": it.get("entry", "path"), "excl": ex_log,
                                "extexcl": xx_log, "out": out, "err": err, **obs})
             elif op == "seval":
